@@ -99,7 +99,7 @@ def rv_str(rv, body=None):
 
 def operand_local(o):
     """Local read by an operand (None for constants)."""
-    if o and o["k"] in ("copy", "move"):
+    if isinstance(o, dict) and o.get("k") in ("copy", "move"):
         return o["place"]["l"]
     return None
 
@@ -111,13 +111,13 @@ def operand_place(o):
 
 
 def const_val(o):
-    if o and o["k"] == "const" and "v" in o:
+    if isinstance(o, dict) and o.get("k") == "const" and "v" in o:
         return o["v"]
     return None
 
 
 def is_const(o, v=None):
-    if not o or o["k"] != "const":
+    if not isinstance(o, dict) or o.get("k") != "const":
         return False
     return v is None or o.get("v") == v
 
@@ -577,7 +577,8 @@ class Body:
 
     @staticmethod
     def rv_operands(rv):
-        return [rv.get("op"), rv.get("place"), rv.get("ops", []), rv.get("a"), rv.get("b")]
+        op = rv.get("op")
+        return [op if isinstance(op, dict) else None, rv.get("place"), rv.get("ops", []), rv.get("a"), rv.get("b")]
 
     def slice_rv(self, bb, stmt, **kw):
         """Slice of the right-hand side of an assignment statement located in block bb."""
@@ -648,7 +649,7 @@ class Body:
                 add_loc(p["l"], path)
 
         def add_op(o, extra=()):
-            if o is None:
+            if not isinstance(o, dict):
                 return
             if o["k"] in ("copy", "move"):
                 add_place(o["place"], extra)
@@ -703,10 +704,11 @@ class Body:
                         add_op(rv["op"], rem)
                         if rk == "cast":
                             sl.atoms.add(("cast", rv["ty"]))
-                    elif rk in ("un", "repeat"):
-                        add_op(rv.get("op") or rv.get("a"))
-                        if rk == "un":
-                            sl.atoms.add(("unop", rv["op"]))
+                    elif rk == "repeat":
+                        add_op(rv["op"])
+                    elif rk == "un":
+                        add_op(rv["a"])
+                        sl.atoms.add(("unop", rv["op"]))
                     elif rk in ("ref", "rawptr", "copyderef"):
                         add_place(rv["place"], rem)
                     elif rk == "discr":
